@@ -211,7 +211,8 @@ class SingleLayerOperator:
         if elem_test.time_interval[1] <= elem_trial.time_interval[0]:
             return 0
 
-        if self.pw_exact and elem_test.gamma_space is elem_trial.gamma_space:
+        if self.pw_exact and elem_test.gamma_space is elem_trial.gamma_space and getattr(
+                elem_trial.gamma_space, 'straight', False):
             return spacetime_integrated_kernel(*elem_test.time_interval,
                                                *elem_trial.time_interval,
                                                *elem_test.space_interval,
